@@ -1,6 +1,24 @@
 (** C03 - Acks fire at most once, exactly once with a timeout, and carry the right reply.
-    Statements only; every proof is `exact <lemma>`.  Model: Sio/Ack.v. *)
+    Statements only; every proof is `exact <lemma>`.  Model: Sio/Ack.v (one emitting socket, the
+    answering part of its peer, the network; every goroutine, the user, the peer and the network are
+    schedulable actions).  [reach s]: s is reached from an initial state by ANY sequence of actions
+    (any cfg, also the pre-fix purge); [reach_fixed s]: the same for the repaired code. *)
 From SioV Require Import Base.GoSem Base.Conc Sio.Ack Sio.AckProofs.
+
+(** Whatever the schedule, however many ACK packets arrive for an id (duplicates, unsolicited ones,
+    from a compliant peer or not), timer or no timer: the callback registered for an ack id has run
+    at most once. *)
+Theorem C03_at_most_once : forall s id, reach s -> length (outcomes s id) <= 1.
+Proof. exact at_most_once. Qed.
+
+(** With a timeout: in every state in which no goroutine can move any more, the callback has run
+    exactly once - with the reply iff the onAck goroutine won the handler mutex (called), otherwise
+    with the timeout (timedOut). *)
+Theorem C03_exactly_once_with_timeout : forall s id e,
+  reach_fixed s -> terminalb s = true -> get_emit s id = Some e -> e_timer e <> TNone ->
+  (e_called e = true /\ e_timedOut e = false /\ exists a, outcomes s id = [OReply a])
+  \/ (e_called e = false /\ e_timedOut e = true /\ outcomes s id = [OTimeout]).
+Proof. exact exactly_once. Qed.
 
 (** When the timer goroutine of [id] runs the purge, sendBuffer loses exactly the frames tagged
     with [id]; all other frames stay, in their order - whatever the buffer holds. *)
@@ -11,3 +29,20 @@ Theorem C03_purge_exact : forall s id e s',
   /\ sublist (st_buf s') (st_buf s)
   /\ (forall f, In f (st_buf s') <-> In f (st_buf s) /\ tag_is id f = false).
 Proof. exact purge_step_exact. Qed.
+
+(** sendBufferMu is free in every terminal state ... *)
+Theorem C03_no_mutex_left_held : forall s,
+  reach_fixed s -> terminalb s = true -> st_bufmu s = None.
+Proof. exact no_mutex_left_held. Qed.
+
+(** ... and in every reachable state its holder is a timer goroutine that can take its next step
+    (so nobody waits for it forever). *)
+Theorem C03_mutex_holder_can_run : forall s j,
+  reach_fixed s -> st_bufmu s = Some j -> exists s', step (LTimer j) s = Some s'.
+Proof. exact mutex_holder_runs. Qed.
+
+(** What the fix repaired, on the model of the old loop: an event with one attachment buffered
+    offline makes the purge panic (mutex left locked, callback never called); behind another
+    packet's frames the loop leaves an attachment frame of the timed-out packet in the buffer. *)
+Example C03_prefix_purge_panics : purge_old 0 (frames_of (Some 0) 0 1) = Panic.
+Proof. exact purge_old_panics. Qed.
